@@ -34,6 +34,9 @@ def run(ctx: Ctx):
     from .common import generic_lints
 
     generic_lints(ctx)
+    from .common import id_truthiness
+
+    id_truthiness(ctx)
 
 
 def _model(with_insertions: bool, items=None) -> Dict[str, Any]:
@@ -204,6 +207,39 @@ def identity_other(ctx: Ctx):
     m = ctx.repo.lookup(dim, "translate_element_id")
     body = SUMMARIZER.summarize(m.node)
     ctx.check_expr("cascade.entry", f"{DIM}::Dimension.translate_element_id", body, "self._element_id_shim.translate_element_id(_id)")
+    # whatever the spelling: for EVERY dimension type the shim translates (array types and datetime) the public entry
+    # point used by the late translation hands the reference to the same cascade as the early rewriting does
+    from ..dectab import DTop, Raises, Sym, SymInterp
+    from ..typetab import dt_members, dt_value
+
+    SHIMMED_SPEC = {"CA_SUBVAR", "MR_SUBVAR", "NUM_ARRAY", "DATETIME"}
+    bad, n, undec = [], 0, None
+    for mem in dt_members(ctx.repo):
+        def atoms(x, mem=mem):
+            t = u(x)
+            if t == "self.dimension_type":
+                return mem
+            if t == "self._element_id_shim.translate_element_id(_id)":
+                return Sym("CASCADE")
+            if t == "_id":
+                return Sym("_id")
+            if isinstance(x, ast.Attribute) and isinstance(x.value, ast.Name) and x.value.id == "DT":
+                return dt_value(ctx.repo, x.attr)
+            raise KeyError
+
+        try:
+            got = SymInterp(atoms).ev(body)
+        except (DTop, Raises) as exc:
+            undec = str(exc)
+            break
+        n += 1
+        if mem in SHIMMED_SPEC and got != Sym("CASCADE"):
+            bad.append(f"{mem}: {got!r} (specified: the shim's cascade)")
+    if undec:
+        ctx.undecided("cascade.entry-table", f"{DIM}::Dimension.translate_element_id", "DECTAB: " + undec, "delegation for every shimmed type")
+    else:
+        ctx.ob("cascade.entry-table", f"{DIM}::Dimension.translate_element_id", bad or f"{n} dimension types", "every shimmed type (array types, datetime) goes through the cascade", not bad,
+               "a type translated early (hide / rename / order rewriting) but passed through untranslated late resolves the same spelling differently")
     e = expand(ctx.repo, dim, "_element_id_shim", stop=lambda mm: True)
     ctx.check_expr("cascade.entry", f"{DIM}::Dimension._element_id_shim", e, "_ElementIdShim(self.dimension_type, self._unshimmed_dimension_dict, self._unshimmed_dimension_transforms_dict)")
     ci = ctx.repo.cls(DIM, "_ElementIdShim")
